@@ -70,6 +70,10 @@ EXPLANATION += (
     ' Round 11: np.ptp and further reducers are typed along their axis.'
 )
 
+EXPLANATION += (
+    ' Round 12: pointer values behind np.asarray / np.array are still pointer values (R-IDIOM/pointer-scatter).'
+)
+
 RULE_TEXT = (
     "one obligation per kernel function x configuration (declared type, "
     "row independence) and per index identity")
